@@ -27,11 +27,14 @@ ALLCTX = ("c1", "c2", "c3", "c4")
 SVC = ("s1", "s2", "S3")           # "S3": a name with an upper-case letter (HA folds it, the script does not)
 EV = ("e1", "e2")
 ENT = ("a", "b", "c")
-ALL_ACTS = ["define", "del", "rebind", "push", "pop", "clear", "reload", "close", "unload", "boot", "import", "fail",
-            "fire", "set", "call", "out"]      # "fail" is not an action: it allows contents whose top level raises
+ALL_ACTS = ["define", "del", "rebind", "push", "pop", "clear", "reload", "close", "unload", "boot", "import", "fail", "tick",
+            "fire", "set", "call", "out"]      # "fail" is not an action: it allows contents whose top level raises;
+#                                                "tick" neither: a script statement may be followed by an occurrence
+#                                                produced by the same script before it yields to the event loop
+TICK_ACTS = ("define", "del", "rebind", "push", "pop", "clear")
 ALL_FLAGS = ["legacy-stop-before-first-run-leaks", "service-handler-not-repointed", "notify-del-returns-early", "dm-delayed-start-ignores-drop",
              "dm-start-order-arbitrary", "dm-service-owner-is-evaluator-name", "dm-service-multi-arg-rejected",
-             "session-import-module-not-started", "service-bookkeeping-keyed-by-spelling"]
+             "session-import-module-not-started", "service-bookkeeping-keyed-by-spelling", "dm-stop-only-scheduled"]
 # deviations repaired in the code under test: their generator masks are lifted (a rejection they explain is a
 # VIOLATION anyway: known_findings.jsonl lists them as fixed)
 LIFTED_MASKS = {"dm-service-multi-arg-rejected"}
@@ -64,6 +67,10 @@ WHAT = {
                                              "(pyscript.s1 / pyscript.S1) do not share a count - deleting or redefining one "
                                              "unregisters the service the other still declares - and a second context takes over "
                                              "a name another context owns",
+    "dm-stop-only-scheduled": "dm: when the last reference of a function goes away its stop is only scheduled: until the event "
+                              "loop runs it the function keeps its listeners, queues and services - an occurrence the same "
+                              "script produces right behind the deleting statement (event.fire, a call of its service) runs "
+                              "the deleted function",
     "unexplained": "recording is not a behaviour of the lifecycle model under any combination of the named deviations",
 }
 NODECL = {"st": [], "ev": [], "tt": [], "svc": [], "resp": "none", "sf": "stack", "alt": False}
@@ -123,6 +130,10 @@ def prelude(c):
            "        L.append(vf_mk())\n"
            "    else:\n"
            '        D["k"] = vf_mk()\n\n') % c
+    # statements executed inside a running (triggered) function: the harness defines vf_tick() and fires the event
+    src += ('@event_trigger("vfrun_%s")\n'
+            "def vf_run(**kw):\n"
+            "    vf_tick()\n\n") % c
     if c != "c4":           # "import mx" executed inside a running function
         src += ('@event_trigger("vfimp_%s")\n'
                 "def vf_imp(**kw):\n"
@@ -131,7 +142,7 @@ def prelude(c):
 
 
 FAIL_SRC = "\nraise RuntimeError('vf: the top level of this file fails here')\n"
-HELPERS = ("vf_spawn", "vf_imp")
+HELPERS = ("vf_spawn", "vf_imp", "vf_run")
 
 
 def file_src(c, defs, g0, fail=False, im=False):
@@ -160,7 +171,45 @@ def norm_act(a):
         a.setdefault("f2", False)
     elif a["a"] == "import":
         a.setdefault("fail", False)
+    a["tick"] = bool(a.get("tick")) and a["a"] in TICK_ACTS
     return a
+
+
+def stmt_src(a):
+    """A structural script statement as source: (set-up, the statement, clean-up, global names it assigns)."""
+    k = a["a"]
+    if k == "define":
+        return "", func_src(a["n"], a["g"], a["d"]), "", []
+    if k == "del":
+        return "", "del %s\n" % a["n"], "", [a["n"]]
+    if k == "rebind":
+        return "", "%s = %s\n" % (a["n"], a["m"]), "", [a["n"]]
+    if k == "push":
+        fac = "def vf_mk():\n" + func_src("inner", a["g"], a["d"], "    ") + "    return inner\n"
+        return fac, ("L.append(vf_mk())\n" if a["where"] == "L" else 'D["k"] = vf_mk()\n'), "del vf_mk\n", []
+    if k == "pop":
+        return "", "del L[-1]\n", "", []
+    if k == "clear":
+        return "", "%s.clear()\n" % a["where"], "", []
+    raise ValueError(k)
+
+
+def occ_src(a, nset):
+    """An occurrence produced by a script: event.fire / state.set / service.call (result reported through vf.tres)."""
+    k = a["a"]
+    if k == "fire":
+        return 'event.fire("%s", p="1")\n' % a["e"]
+    if k == "set":
+        return 'state.set("pyscript.%s", "%d", x="p")\n' % (a["x"], nset)
+    if k == "call":
+        kws = "".join(', %s="%s"' % (k2, v) for k2, v in sorted(parse_kv(a["data"]).items()))
+        return ('try:\n    service.call("pyscript", "%s"%s)\n    vf.tres("none")\n'
+                'except Exception as vf_exc:\n    vf.tres(type(vf_exc).__name__)\n') % (a["s"], kws)
+    raise ValueError(k)
+
+
+def indent(src, by="    "):
+    return "".join(by + ln + "\n" for ln in src.splitlines())
 
 
 # ------------------------------------------------------------------------------------------------
@@ -239,9 +288,9 @@ def run_case(case):
             data = canon({k2: str(v) for k2, v in kw.items()})
             rec.append({"g": gen, "k": k, "x": x, "data": data})
             return data
-        Function.register({"vf.rc": rc, "vf.sinkdone": lambda: bool(base["sink"] and base["sink"][-1]["done"])})
-
-        state = {"unloaded": False, "nset": 0, "mtime": 2000, "cell": None}
+        state = {"unloaded": False, "nset": 0, "mtime": 2000, "cell": None, "tres": None}
+        Function.register({"vf.rc": rc, "vf.sinkdone": lambda: bool(base["sink"] and base["sink"][-1]["done"]),
+                           "vf.tres": lambda v: state.__setitem__("tres", v)})
 
         # the Jupyter session context: created as jupyter_kernel_start does, cells run as the kernel runs them
         if "c3" in ctxs:
@@ -299,7 +348,7 @@ def run_case(case):
                 act[c] = n
             stray = sum(len(q) for k, q in State.notify.items() if k not in {"pyscript." + x for x in ENT})
             stray += sum(len(q) for k, q in Event.notify.items()
-                         if legacy and k not in EV and not k.startswith(("vfspawn_", "vfimp_")))
+                         if legacy and k not in EV and not k.startswith(("vfspawn_", "vfimp_", "vfrun_")))
             stray += len(Event.notify) if not legacy else 0
             stray += len(Mqtt.notify) + len(Webhook.notify)
 
@@ -453,6 +502,30 @@ def run_case(case):
                 raise ValueError(k)
             return res
 
+        async def do_tick(a, o):
+            """The structural statement a and the occurrence o in ONE script, nothing in between: as top-level
+            statements of one source / cell (tvia = exec) or inside a running triggered function (tvia = run)."""
+            setup, stmt, cleanup, glob = stmt_src(a)
+            if o["a"] == "set":
+                state["nset"] += 1
+            state["tres"] = None
+            body2 = stmt + occ_src(o, state["nset"])
+            tvia = a["via"] if a["a"] == "push" else ("exec" if a["a"] == "define" else a.get("tvia", "exec"))
+            if tvia == "exec":
+                await ex(a["c"], setup + body2 + cleanup)
+            else:
+                gl = ("global %s\n" % ", ".join(glob)) if glob else ""
+                await ex(a["c"], setup + "def vf_tick():\n" + indent(gl + body2))
+                hass.bus.async_fire("vfrun_" + a["c"], {})
+                await quiesce()
+                await ex(a["c"], "del vf_tick\n" + cleanup)
+            res = {"k": "-", "g": 0, "data": "-"}
+            if o["a"] == "call":
+                t = state["tres"]
+                res["k"] = {"none": "none", "ServiceNotFound": "notfound", "KeyError": "notfound", "ServiceValidationError": "err",
+                            "HomeAssistantError": "err"}.get(t, "exc:%s" % t)
+            return res
+
         await quiesce()
         gc.collect()
         gc.freeze()
@@ -472,8 +545,17 @@ def run_case(case):
                 return await real()
             State.get_service_params = classmethod(slow_get_service_params)
             state["restore"] = lambda: setattr(State, "get_service_params", orig_gsp)
+        behind = None              # the statement of a "tick" step, executed together with the next step's occurrence
         for st in case["steps"]:
             a = st["act"] = norm_act(st["act"])
+            if a["tick"]:
+                if behind is not None:
+                    out["error"] = "two tick steps in a row"
+                behind = a
+                out["steps"].append({"act": a, "obs": {"skip": 1}})
+                continue
+            if behind is not None and a["a"] not in ("fire", "set", "call"):
+                out["error"] = "tick step followed by %s" % a["a"]
             if a.get("rush"):
                 try:
                     await do(a)
@@ -482,9 +564,10 @@ def run_case(case):
                 out["steps"].append({"act": a, "obs": {"skip": 1}})
                 continue
             try:
-                res = await do(a)
+                res = await (do(a) if behind is None else do_tick(behind, a))
             except Exception as exc:  # recorded, decided by the trace specification (no such behaviour)
                 res = {"k": "exc:" + type(exc).__name__, "g": 0, "data": str(exc)[:120]}
+            behind = None
             await quiesce()
             t1 = tables()
             gc.collect()
@@ -500,6 +583,8 @@ def run_case(case):
             obs["res"] = res
             obs["base"] = baseline()
             out["steps"].append({"act": a, "obs": obs})
+        if behind is not None:
+            out["error"] = "the recording ends with a tick step"
         gc.unfreeze()
         if state.get("restore"):
             state["restore"]()
@@ -878,7 +963,8 @@ def gen_random_case(seed, nsteps, ctxs, mask):
 # validation by TLC
 def slim(case):
     return {"id": case["id"], "sub": case["sub"], "started": case["started"], "ctxs": case["ctxs"],
-            "steps": [{"act": norm_act(s["act"]), "obs": s["obs"], "rush": bool(s["act"].get("rush"))} for s in case["steps"]]}
+            "steps": [{"act": norm_act(s["act"]), "obs": s["obs"], "rush": bool(s["act"].get("rush")),
+                       "tick": norm_act(s["act"])["tick"]} for s in case["steps"]]}
 
 
 def run_trace(ctx, cases, flagsets, label, workers=4):
